@@ -52,7 +52,7 @@ def gen_lines(r, n, tier):
                     rx.append("rx=b:%s:%d" % (name, r.randint(0, 1)))
                 elif t == "f":
                     rx.append("rx=f:%s:%s" % (name, r.choice(["0.25", "-7.5", "3.0"])))
-                else:
+                elif r.random() < 0.3:   # F8: the save after this aborts; keep most cases for the other comparisons
                     rx.append("rx=s:%s:%s" % (name, ac.hx(r.choice(["bye", "", "hello world", val + "x"]))))
         line = ac.case_line("s%d" % i, c, **kw)
         if rx:
